@@ -104,3 +104,32 @@ F('find_authority_delimiter', 'ada::helpers::find_authority_delimiter', mangled=
 F('try_can_parse_absolute_fast', 'try_can_parse_absolute_fast')
 F('get_max_input_length', 'ada::get_max_input_length')
 F('can_parse', 'ada::can_parse')
+
+# ---- url_base / url_components / url_aggregator members
+A = 'ada::url_aggregator::'
+F('base_is_special', 'ada::url_base::is_special', cls='base', selft='struct url_base')
+F('base_get_special_port', 'ada::url_base::get_special_port', cls='base', selft='struct url_base')
+F('base_scheme_default_port', 'ada::url_base::scheme_default_port', cls='base', selft='struct url_base')
+F('check_offset_consistency', 'ada::url_components::check_offset_consistency', cls='comp')
+for _m in ['add_authority_slashes_if_needed', 'append_base_password', 'append_base_pathname', 'append_base_username',
+           'cannot_have_credentials_or_port', 'clear_hash', 'clear_hostname', 'clear_password', 'clear_pathname', 'clear_port',
+           'clear_search', 'consume_prepared_path', 'copy_scheme', 'delete_dash_dot', 'get_components', 'get_hash', 'get_host',
+           'get_hostname', 'get_href', 'get_href_size', 'get_password', 'get_pathname', 'get_pathname_length', 'get_port',
+           'get_protocol', 'get_search', 'get_username', 'has_authority', 'has_credentials', 'has_dash_dot', 'has_empty_hostname',
+           'has_hash', 'has_hostname', 'has_non_empty_password', 'has_non_empty_username', 'has_password', 'has_port', 'has_search',
+           'has_valid_domain', 'is_at_path', 'parse_host', 'parse_ipv4', 'parse_ipv6', 'parse_opaque_host', 'parse_path',
+           'replace_and_resize', 'reserve', 'retrieve_base_port', 'set_hash', 'set_host', 'set_hostname', 'set_href', 'set_password',
+           'set_pathname', 'set_port', 'set_protocol', 'set_protocol_as_file', 'set_scheme', 'set_scheme_from_view_with_colon',
+           'set_search', 'set_username', 'update_base_authority', 'update_base_hostname', 'update_base_password',
+           'update_base_pathname', 'update_base_port', 'update_base_username', 'update_host_to_base_host',
+           'update_unencoded_base_hash', 'validate']:
+    F('agg_' + _m, A + _m, cls='agg', mangled=r'_ZNK?3ada14url_aggregator\d+%s(B5cxx11)?E.*' % _m)
+F('agg_update_base_search', A + 'update_base_search', cls='agg', mangled=r'_ZN3ada14url_aggregator18update_base_searchESt17basic_string_viewIcSt11char_traitsIcEE')
+F('agg_update_base_search_set', A + 'update_base_search', cls='agg', mangled=r'_ZN3ada14url_aggregator18update_base_searchESt17basic_string_viewIcSt11char_traitsIcEEPKh')
+F('agg_parse_port', A + 'parse_port', cls='agg', mangled=r'_ZN3ada14url_aggregator10parse_portESt17basic_string_viewIcSt11char_traitsIcEEb')
+F('agg_parse_scheme_with_colon_0', A + 'parse_scheme_with_colon', cls='agg', mangled=r'_ZN3ada14url_aggregator23parse_scheme_with_colonILb0EEE.*')
+F('agg_parse_scheme_with_colon_1', A + 'parse_scheme_with_colon', cls='agg', mangled=r'_ZN3ada14url_aggregator23parse_scheme_with_colonILb1EEE.*')
+F('agg_set_host_or_hostname_0', A + 'set_host_or_hostname', cls='agg', mangled=r'_ZN3ada14url_aggregator20set_host_or_hostnameILb0EEE.*')
+F('agg_set_host_or_hostname_1', A + 'set_host_or_hostname', cls='agg', mangled=r'_ZN3ada14url_aggregator20set_host_or_hostnameILb1EEE.*')
+F('apply_shifted_non_scheme_offsets', 'apply_shifted_non_scheme_offsets')
+F('strip_trailing_spaces_from_opaque_path_agg', 'ada::helpers::strip_trailing_spaces_from_opaque_path', mangled=r'.*strip_trailing_spaces_from_opaque_pathINS_14url_aggregatorEE.*')
